@@ -485,7 +485,8 @@ class PeerManager:
             getaddrinfo = asyncio.get_event_loop().getaddrinfo
             try:
                 infos = await getaddrinfo(host, 80, type=socket.SOCK_STREAM)
-            except socket.gaierror:
+            except (socket.gaierror, UnicodeError):
+                # UnicodeError: the host cannot be IDNA-encoded (e.g. an empty or over-long label)
                 permit = False
                 reason = 'address resolution failure'
             else:
